@@ -366,7 +366,7 @@ func runC08(c *core.Ctx) {
 			d = []byte(sg.DocumentNoTabs(r, 3, 5, 3, nil).Markdown)
 			c.Count("structured_documents", 1)
 		default:
-			d = wl.Mix(r, corpus)
+			d = mixDoc(r, corpus)
 		}
 		d = c08Sanitize(d)
 		if !c08Eligible(d) {
